@@ -8,6 +8,10 @@ use std::time::Duration;
 pub struct Flounder {
     board: Board,
     searcher: Searcher,
+    #[cfg(flounder_verif)]
+    verif_budget_only: bool,
+    #[cfg(flounder_verif)]
+    verif_last_go: Option<(u8, Option<Duration>)>,
 }
 
 impl Flounder {
@@ -15,6 +19,10 @@ impl Flounder {
         Self {
             board: Board::default(),
             searcher: Searcher::new(),
+            #[cfg(flounder_verif)]
+            verif_budget_only: false,
+            #[cfg(flounder_verif)]
+            verif_last_go: None,
         }
     }
 
@@ -144,6 +152,12 @@ impl Flounder {
             }
         }
 
+        #[cfg(flounder_verif)]
+        if self.verif_budget_only {
+            self.verif_last_go = Some((depth, time_limit));
+            return;
+        }
+
         let (_, best_move) = self.searcher.find_best_move(&self.board, depth, time_limit);
 
         if let Some(mv) = best_move {
@@ -216,6 +230,32 @@ impl Flounder {
             let mv = moves.iter().find(|m| m.to_algebraic() == *mv_str);
             self.board.make_move(mv.unwrap());
         }
+    }
+}
+
+/// Verification hooks (only with `--cfg flounder_verif`): entry points for the harness in /verif.
+#[cfg(flounder_verif)]
+impl Flounder {
+    pub fn verif_handle_command(&mut self, command: &str) {
+        self.handle_command(command);
+    }
+
+    pub fn verif_board(&self) -> &Board {
+        &self.board
+    }
+
+    pub fn verif_searcher(&mut self) -> &mut Searcher {
+        &mut self.searcher
+    }
+
+    /// Runs the real `go` parser on `command` and returns the (depth, time limit) it would hand
+    /// to the search, without searching.
+    pub fn verif_go_budget(&mut self, command: &str) -> Option<(u8, Option<Duration>)> {
+        self.verif_budget_only = true;
+        self.verif_last_go = None;
+        self.handle_command(command);
+        self.verif_budget_only = false;
+        self.verif_last_go.take()
     }
 }
 
